@@ -535,6 +535,62 @@ def part_threads(spec, res):
         execute(p, "sampled")
 
 
+def foreign_logger_case(seed, i, res):
+    """Inside an action that was started with a logger object of its own, typed messages and typed child actions written through
+    the production Logger fail to serialize: the eliot:traceback and the eliot:serialization_failure still go where the failed
+    message was going - to the registered destinations, in the current action's context - not into the enclosing action's logger."""
+    from vf.interp import _Sink
+    rng = random.Random("%s:C13:fl:%d" % (seed, i))
+
+    def failing(v):
+        raise KeyError("serializer fails for %r" % (v,))
+    AT = ActionType("c13:fl:a", [Field("a", failing, "")], [], "")
+    MT = MessageType("c13:fl:m", [Field("a", failing, "")], "")
+    tape = Tape()
+    rec = Recorder(tape, "rec")
+    add_destinations(rec)
+    sink = _Sink()
+    which = rng.choice(["child_start", "child_success", "message_via_logger"])
+    try:
+        with start_action(sink, "c13:foreign") as fa:
+            if which == "child_start":
+                with AT(a=1):
+                    pass
+                nfail = 1
+            elif which == "child_success":
+                ok_at = ActionType("c13:fl:b", [], [Field("r", failing, "")], "")
+                with ok_at() as a2:
+                    a2.add_success_fields(r=2)
+                nfail = 1
+            else:
+                Logger().write({"message_type": "c13:fl:m", "a": 3, "task_uuid": fa.task_uuid, "task_level": [9, 9], "timestamp": 1.0}, MT._serializer)
+                nfail = 1
+    except BaseException as e:
+        res["violations"].append({"msg": "logging raised %r" % (e,), "mech": None, "detail": {"kind": "foreign_logger", "which": which}})
+        return
+    finally:
+        remove_destination(rec)
+    msgs = tape.msgs("rec")
+    tbs = [m for m in msgs if m.get("message_type") == "eliot:traceback"]
+    sfs = [m for m in msgs if m.get("message_type") == "eliot:serialization_failure"]
+    problems = []
+    if len(tbs) != nfail or len(sfs) != nfail:
+        problems.append("%s inside an action bound to another logger object: %d eliot:traceback and %d eliot:serialization_failure reached the destinations, expected one each" % (
+            which, len(tbs), len(sfs)))
+    stray = [m.get("message_type") for m in sink.got if m.get("message_type") in ("eliot:traceback", "eliot:serialization_failure")]
+    if stray:
+        problems.append("failure reports %s were written to the enclosing action's own logger" % stray)
+    for r in tbs + sfs:
+        if r["task_uuid"] != fa.task_uuid:
+            problems.append("a failure report is not in the task of the action current at the call")
+            break
+    res["evals"] += 1
+    res["counters"]["foreign_logger_cases"] = res["counters"].get("foreign_logger_cases", 0) + 1
+    res["nontrivial"].append(h(["foreign_logger", which]))
+    if problems:
+        res["violations"].append({"msg": problems[0], "mech": None, "detail": {"kind": "foreign_logger", "which": which, "problems": problems}})
+
+
 def run_case(spec):
     res = {"evals": 0, "nontrivial": [], "counters": {}, "violations": [], "sample": None, "sets": {"interleavings": [], "preemption_lines": []}}
     if spec["part"] == "threads":
@@ -542,6 +598,8 @@ def run_case(spec):
         return res
     for i in range(spec["lo"], spec["lo"] + 3):
         reentrant_case(spec["seed"], i, res)
+    for i in range(spec["lo"], spec["lo"] + 6):
+        foreign_logger_case(spec["seed"], i, res)
     gfields = {}
     if spec["globals"]:
         gfields = {"g_host": "h1", "g_n": 7}
